@@ -123,13 +123,7 @@ def Sink.run : List Item → Sink → Option Sink
   | [], s => some s
   | it :: rest, s => (s.step it).bind (Sink.run rest)
 
-/-- `XalanOutputStream::write(const XalanDOMChar*, n)`: the second buffer receives each chunk of the
-writer as one bulk write; `flush()` at the end of the document. -/
-def streamChunksF (cap : Nat) (fbd : Bool) (writerChunks : List (List Nat)) : Option (List (List Nat)) :=
-  (Sink.run (writerChunks.map Item.bulk) (Sink.emptyF cap fbd)).map fun s => s.flush.chunks
-
-def streamChunks (cap : Nat) (writerChunks : List (List Nat)) : Option (List (List Nat)) :=
-  streamChunksF cap true writerChunks
+/-! `XalanOutputStream`'s own buffer (with the hold-back of half a surrogate pair) is modelled in `Stream.lean`. -/
 
 /-! ## the three writers -/
 
